@@ -2,6 +2,7 @@ package catalog
 
 import (
 	"encoding/json"
+	"strings"
 )
 
 type Rule struct {
@@ -17,6 +18,16 @@ type Rule struct {
 
 	// Children specified only if tokenType: "array" or "object".
 	Children []Rule
+}
+
+// noteLineBreaks brings the line breaks of a multi-line note to LF, so that
+// the note does not depend on the line ends of the file it was written in.
+func noteLineBreaks(s string) string {
+	if !strings.Contains(s, "\r") {
+		return s
+	}
+	s = strings.ReplaceAll(s, "\r\n", "\n")
+	return strings.ReplaceAll(s, "\r", "\n")
 }
 
 type RuleTokenType string
